@@ -2,7 +2,7 @@ SPECIFICATION GSpec
 CONSTANTS
   W = 896
   MaxId = 3000
-  Ids = {0, 1, 2, 894, 895, 896, 897, 898, 1791, 1792, 1793, 2999, 3000}
+  Ids = {0, 1, 2, 895, 896, 897, 1792, 1793, 3000, 10000, 10001, 10895, 10896, 10897, 12000}
   Depth = 4
 INVARIANTS Emit RWTypeOK
 CHECK_DEADLOCK FALSE
